@@ -74,7 +74,7 @@ func wlShortDiff(a, b string) string {
 }
 
 func runC03(c *vlib.Ctx) {
-	names := []string{"repo", "kv", "labelmap", "annotation", "neuronjson", "delete"}
+	names := []string{"repo", "kv", "labelmap", "annotation", "neuronjson", "delete", "roi", "imageblk", "sync"}
 	ws := wlWorkloads()
 	type job struct {
 		w     string
@@ -165,7 +165,11 @@ func runC03(c *vlib.Ctx) {
 							when = fmt.Sprintf("after continuing with %d more ops (last: %s)", k-from, opname(k))
 						}
 						for _, comp := range d {
-							c.Violate(fmt.Sprintf("restart:%s:%s:after-%s:%s", j.w, mode, opname(from), wlCompClass(comp)),
+							cls := wlCompClass(comp)
+							if cls == "repo-metadata" {
+								cls += ":" + strings.Join(jsonDiffFields(L[comp], R[comp]), "+")
+							}
+							c.Violate(fmt.Sprintf("restart:%s:%s:after-%s:%s", j.w, mode, opname(from), cls),
 								fmt.Sprintf("workload %s, %s restart after op #%d (%s): %s, %s differs from the run without restart: %s", j.w, mode, from, opname(from), when, comp, wlShortDiff(L[comp], R[comp])), rep)
 						}
 						break
@@ -184,4 +188,52 @@ func runC03(c *vlib.Ctx) {
 	c.Sample(map[string]interface{}{"workload": "labelmap", "ops": "newrepo instance ingest merge commit newversion merge cleave split-supervoxel renumber nextlabel rawmutate", "restart": "abrupt exit after cleave, new process, continue", "compared": "repo metadata + every read endpoint of every version, at the restart and after each later op"})
 	c.Set("rule", "history = workload prefix; a restart (clean shutdown / abrupt exit while idle) is placed after every operation (thorough: every pair of positions); state = uuid- and time-free snapshot of repo metadata and of every data read endpoint at every version; it must equal the snapshot of the never-restarted run at the restart and after every later operation")
 	c.Assume("server statistics and mutation-id counters are excluded from snapshots (documented to differ)")
+}
+
+// jsonDiffFields returns the sorted names (last path element) of the leaves at which two JSON documents differ.
+func jsonDiffFields(a, b string) []string {
+	var x, y interface{}
+	if json.Unmarshal([]byte(a), &x) != nil || json.Unmarshal([]byte(b), &y) != nil {
+		return []string{"unparsable"}
+	}
+	set := map[string]bool{}
+	var rec func(name string, p, q interface{})
+	rec = func(name string, p, q interface{}) {
+		pm, ok1 := p.(map[string]interface{})
+		qm, ok2 := q.(map[string]interface{})
+		if ok1 && ok2 {
+			for k := range pm {
+				rec(k, pm[k], qm[k])
+			}
+			for k := range qm {
+				if _, ok := pm[k]; !ok {
+					rec(k, nil, qm[k])
+				}
+			}
+			return
+		}
+		pa, ok1 := p.([]interface{})
+		qa, ok2 := q.([]interface{})
+		if ok1 && ok2 && len(pa) == len(qa) {
+			for i := range pa {
+				rec(name, pa[i], qa[i])
+			}
+			return
+		}
+		pj, _ := json.Marshal(p)
+		qj, _ := json.Marshal(q)
+		if string(pj) != string(qj) {
+			set[name] = true
+		}
+	}
+	rec("root", x, y)
+	var out []string
+	for k := range set {
+		out = append(out, k)
+	}
+	sort.Strings(out)
+	if len(out) > 4 {
+		out = append(out[:4], "...")
+	}
+	return out
 }
